@@ -1,6 +1,7 @@
 package rules
 
 import (
+	"os"
 	"fmt"
 	"go/constant"
 	"go/token"
@@ -272,6 +273,17 @@ func rangeElemOfParam(p *an.Prog, v ssa.Value, of *ssa.Function) *ssa.Parameter 
 	return nil
 }
 
+// rangeOperandParam: the parameter of `of` that the range operand op comes from (through helpers), or nil.
+func rangeOperandParam(p *an.Prog, op ssa.Value, of *ssa.Function) *ssa.Parameter {
+	stop := func(x ssa.Value) bool { prm, ok := x.(*ssa.Parameter); return ok && prm.Parent() == of }
+	for _, o := range p.DeepSourcesStop(op, 3, true, stop) {
+		if prm, ok := o.(*ssa.Parameter); ok && prm.Parent() == of {
+			return prm
+		}
+	}
+	return nil
+}
+
 func paramIndex(fn *ssa.Function, prm *ssa.Parameter) int {
 	for i, q := range fn.Params {
 		if q == prm {
@@ -310,6 +322,7 @@ func selection(c *an.Ctx, wr *watchRoles, rule string) {
 	}
 	gf := glob.Parent()
 	var lMatch *an.Loop
+	var matchLoops []*an.Loop
 	for _, l := range an.Loops(gf) {
 		op := l.RangeOperand()
 		if op == nil {
@@ -317,6 +330,16 @@ func selection(c *an.Ctx, wr *watchRoles, rule string) {
 		}
 		for _, src := range an.Sources(op) {
 			if e, ok := src.(*ssa.Extract); ok && e.Tuple == ssa.Value(glob) && e.Index == 0 {
+				lMatch = l
+				matchLoops = append(matchLoops, l)
+			}
+		}
+	}
+	// (two passes over the matches — mark the excluded ones, then keep the rest: the loop with the exclusion test
+	// is the one the per-match clauses are stated on)
+	if pm != nil && pm.Parent() == gf {
+		for _, l := range matchLoops {
+			if l.Blocks[pm.Block()] {
 				lMatch = l
 			}
 		}
@@ -330,6 +353,12 @@ func selection(c *an.Ctx, wr *watchRoles, rule string) {
 	fate := p.ErrFate(glob, noReturn)
 	c.Check(fate.Kind == "propagated" || fate.Kind == "converted", rule, an.Short(gf)+":err(Glob)", glob.Pos(), "a malformed include pattern is an error", "a Glob error is dropped: "+fate.Detail)
 	_, matchElems := lMatch.RangeKeyValue()
+	for _, l := range matchLoops {
+		if l != lMatch {
+			_, more := l.RangeKeyValue()
+			matchElems = append(matchElems, more...)
+		}
+	}
 	isMatch := func(v ssa.Value, st *an.State) bool {
 		for _, e := range matchElems {
 			if an.SameValue(v, e) || (st != nil && st.SameRoot(v, e)) {
@@ -371,6 +400,44 @@ func selection(c *an.Ctx, wr *watchRoles, rule string) {
 	c.Check(argOK, rule, an.Short(pf)+":PathMatch(args)", pm.Pos(), fmt.Sprintf("PathMatch(<each element of %q>, <the match>)", excP.Name()), "the exclusion test is not PathMatch(<each exclude pattern>, <the match>)")
 	fate2 := p.ErrFate(pm, noReturn)
 	c.Check(fate2.Kind == "propagated" || fate2.Kind == "converted", rule, an.Short(pf)+":err(PathMatch)", pm.Pos(), "a malformed exclude pattern is an error", "a PathMatch error is dropped: "+fate2.Detail)
+	// every exclude pattern is put to the match: no way round the loop over the patterns avoids PathMatch (a
+	// shortcut that decides "cannot match" by other means — a literal prefix, a cache — disagrees with the glob
+	// semantics for some pattern)
+	{
+		var lExc *an.Loop
+		var lf *ssa.Function
+		for _, f := range append([]*ssa.Function{pf}, sortedFns(map[*ssa.Function]bool{nw: true, gf: true})...) {
+			for _, l := range an.Loops(f) {
+				op := l.RangeOperand()
+				if op == nil {
+					continue
+				}
+				if prm := rangeOperandParam(p, op, nw); prm == excP && lExc == nil {
+					lExc, lf = l, f
+				}
+			}
+		}
+		if lExc == nil {
+			c.Und(rule, an.Short(nw)+":exclude-loop", pm.Pos(), "the loop over the exclude patterns was not found")
+		} else {
+			ex := &an.Explorer{P: p, NoReturn: noReturn, MaxVisits: 1, MaxDepth: 3,
+				Inline: func(f *ssa.Function) bool { return wr.inW(f) && f != lf }}
+			lExc.Bound(ex)
+			ex.Effect = func(in ssa.Instruction, st *an.State) string {
+				if in == ssa.Instruction(pm) {
+					return "PathMatch"
+				}
+				return ""
+			}
+			skips := false
+			for _, o := range ex.Run(lf, lExc.BodyEntry(), lExc.Header, nil) {
+				if o.End == "stop" && o.StopBlock == lExc.Header && !has(o.Effects, "PathMatch") {
+					skips = true
+				}
+			}
+			c.Check(!skips, rule, an.Short(lf)+":every-exclude-pattern", pm.Pos(), "every pass of the loop over the exclude patterns evaluates PathMatch", "a pass of the loop over the exclude patterns can go on to the next pattern without evaluating PathMatch on this one: whether the pattern matches is decided by something other than the glob semantics, so an excluded path can stay selected")
+		}
+	}
 	// errors of the helpers reach NewWatcher's caller
 	var helpers []*ssa.Function
 	for _, f := range []*ssa.Function{gf, pf} {
@@ -456,6 +523,184 @@ func selection(c *an.Ctx, wr *watchRoles, rule string) {
 	}
 	// table: matched=false for every exclude → appended once; matched=true → not appended
 	matched := extractOf(pm, 0)
+	// two passes: the first marks, in a list of booleans as long as the matches and made for this pattern, the
+	// matches an exclude pattern covers; the second keeps the unmarked ones. The table is the composition of the
+	// two per-match tables, joined on the mark at the loop's own index
+	var lKeep *an.Loop
+	for _, l := range matchLoops {
+		if l == lMatch {
+			continue
+		}
+		for call := range pathAppends {
+			if call.Parent() == gf && l.Blocks[call.Block()] {
+				lKeep = l
+			}
+		}
+	}
+	if lKeep != nil {
+		keyOf := func(l *an.Loop) []ssa.Value { k, _ := l.RangeKeyValue(); return k }
+		isKey := func(v ssa.Value, l *an.Loop) bool {
+			for _, k := range keyOf(l) {
+				if an.SameValue(v, k) {
+					return true
+				}
+			}
+			return false
+		}
+		// the mark list
+		var marks *ssa.MakeSlice
+		for b := range lMatch.Blocks {
+			for _, in := range b.Instrs {
+				st, ok := in.(*ssa.Store)
+				if !ok {
+					continue
+				}
+				ia, ok := st.Addr.(*ssa.IndexAddr)
+				if !ok || !isKey(ia.Index, lMatch) {
+					continue
+				}
+				if mk, ok := an.Resolve(ia.X).(*ssa.MakeSlice); ok && mk.Parent() == gf {
+					marks = mk
+				}
+			}
+		}
+		sized := false
+		if marks != nil {
+			for _, src := range an.Sources(marks.Len) {
+				if call, ok := src.(*ssa.Call); ok {
+					if b, ok := call.Call.Value.(*ssa.Builtin); ok && b.Name() == "len" {
+						for _, a := range an.Sources(call.Call.Args[0]) {
+							if e, ok := a.(*ssa.Extract); ok && e.Tuple == ssa.Value(glob) && e.Index == 0 {
+								sized = true
+							}
+						}
+					}
+				}
+			}
+		}
+		key2 := an.Short(nw) + ":two-pass"
+		if marks == nil || !sized || !an.Dominates(glob, marks) {
+			c.Bad(rule, key2, pm.Pos(), "the matches are excluded in one pass and kept in another, but what carries the verdict from one to the other is not a list of booleans made for this pattern with one entry per match")
+			return
+		}
+		isMarkAddr := func(v ssa.Value, l *an.Loop) bool {
+			ia, ok := v.(*ssa.IndexAddr)
+			return ok && an.Resolve(ia.X) == ssa.Value(marks) && isKey(ia.Index, l)
+		}
+		bad := ""
+		for _, m := range []bool{false, true} {
+			m := m
+			ex := &an.Explorer{P: p, NoReturn: noReturn, MaxVisits: 3, MaxDepth: 3,
+				Inline: func(f *ssa.Function) bool { return wr.inW(f) && f != gf }}
+			lMatch.Bound(ex)
+			ex.Atom = func(v ssa.Value) (an.AVal, bool) {
+				for _, x := range matched {
+					if v == x {
+						return an.ABool(m), true
+					}
+				}
+				for _, e := range errOf(pm) {
+					if v == e {
+						return an.AVal{K: an.ANil}, true
+					}
+				}
+				return an.AVal{}, false
+			}
+			ex.Effect = func(in ssa.Instruction, st *an.State) string {
+				if in == ssa.Instruction(pm) {
+					return "PathMatch"
+				}
+				if sto, ok := in.(*ssa.Store); ok {
+					if ia, ok := sto.Addr.(*ssa.IndexAddr); ok && an.Resolve(ia.X) == ssa.Value(marks) {
+						if b, isB := st.Eval(sto.Val).IsBool(); isB && b && isMarkAddr(sto.Addr, lMatch) {
+							return "mark"
+						}
+						return "mark(other)"
+					}
+				}
+				return ""
+			}
+			outs := ex.Run(gf, lMatch.BodyEntry(), lMatch.Header, nil)
+			if len(outs) == 0 {
+				bad = "no path through the marking pass"
+			}
+			for _, o := range outs {
+				if o.End != "stop" {
+					continue
+				}
+				if has(o.Effects, "mark(other)") {
+					bad = "the marking pass writes an entry other than the current match's (or something other than true)"
+				}
+				if m && has(o.Effects, "PathMatch") && !has(o.Effects, "mark") {
+					bad = "a match that an exclude pattern matched is not marked"
+				}
+				if !m && has(o.Effects, "mark") {
+					bad = "a match that no exclude pattern matched is marked"
+				}
+			}
+		}
+		for _, mk := range []bool{false, true} {
+			mk := mk
+			ex := &an.Explorer{P: p, NoReturn: noReturn, MaxVisits: 3, MaxDepth: 3,
+				Inline: func(f *ssa.Function) bool { return wr.inW(f) && f != gf }}
+			lKeep.Bound(ex)
+			seen := false
+			ex.Atom = func(v ssa.Value) (an.AVal, bool) {
+				if u, ok := v.(*ssa.UnOp); ok && u.Op == token.MUL && isMarkAddr(u.X, lKeep) {
+					seen = true
+					return an.ABool(mk), true
+				}
+				return an.AVal{}, false
+			}
+			ex.Effect = func(in ssa.Instruction, st *an.State) string {
+				if call, ok := in.(*ssa.Call); ok {
+					if b, ok := call.Call.Value.(*ssa.Builtin); ok && b.Name() == "append" && pathAppends[call] {
+						for _, e := range an.VariadicElems(call.Call.Args[1]) {
+							if e != nil && isMatch(e, st) {
+								return "append(match)"
+							}
+						}
+						return "append(other)"
+					}
+				}
+				if sto, ok := in.(*ssa.Store); ok {
+					if ia, ok := sto.Addr.(*ssa.IndexAddr); ok && an.Resolve(ia.X) == ssa.Value(marks) {
+						return "mark(other)"
+					}
+				}
+				return ""
+			}
+			outs := ex.Run(gf, lKeep.BodyEntry(), lKeep.Header, nil)
+			if len(outs) == 0 || !seen {
+				bad = "the keeping pass does not consult the mark of the current match"
+			}
+			for _, o := range outs {
+				if o.End != "stop" {
+					continue
+				}
+				n := count(o.Effects, "append(match)")
+				if has(o.Effects, "append(other)") || has(o.Effects, "mark(other)") {
+					bad = "the keeping pass writes something other than the current match"
+				}
+				if mk && n != 0 {
+					bad = "a marked match is still watched"
+				}
+				if !mk && n != 1 {
+					bad = fmt.Sprintf("an unmarked match is appended %d times, want once", n)
+				}
+			}
+		}
+		// nothing else writes the marks, and the keeping pass comes after the marking pass
+		if exit := lMatch.NormalExit(); exit == nil || !an.CanReach(exit, lKeep.Header) || an.CanReach(lKeep.Header, lMatch.Header) && !sameOuterIteration(lMatch, lKeep) {
+			bad = "the keeping pass does not follow the marking pass"
+		}
+		if bad != "" {
+			c.Bad(rule, key2, pm.Pos(), "%s", bad)
+		} else {
+			c.OK(rule, key2, pm.Pos(), "pass 1 marks exactly the matches an exclude pattern covers (entry of the match's own index, list made per pattern); pass 2 keeps exactly the unmarked ones, once")
+		}
+		return
+	}
 	for _, m := range []bool{false, true} {
 		m := m
 		ex := &an.Explorer{P: p, NoReturn: noReturn, MaxVisits: 3, MaxDepth: 3,
@@ -1098,7 +1343,7 @@ func serving(c *an.Ctx, wr *watchRoles, rule string) {
 				if o.End == "bound" {
 					continue
 				}
-				return false, "a path leaves the loop (" + o.End + ") although the watcher and the channels are open"
+				return false, "a path leaves the loop (" + o.End + ") although the watcher and the channels are open" + fmt.Sprint(" [forks: ", o.Unknown, "]")
 			}
 			return true, ""
 		}
@@ -1132,8 +1377,11 @@ func serving(c *an.Ctx, wr *watchRoles, rule string) {
 					}
 				}
 				if !ok {
-					if stays, _ := staysWhileOpen(); stays {
+					stays, whyNot := staysWhileOpen()
+					if stays {
 						ok, why = true, "with the watcher and the channels open no path of a pass leaves the loop (explored)"
+					} else if os.Getenv("TASKVERIF_DEBUG") != "" {
+						fmt.Println("DEBUG staysWhileOpen:", whyNot)
 					}
 				}
 				pos := from.Instrs[len(from.Instrs)-1].Pos()
@@ -1282,4 +1530,10 @@ func fsnotifyOps(p *an.Prog) []int64 {
 	}
 	sort.Slice(out, func(i, j int) bool { return out[i] < out[j] })
 	return out
+}
+
+// sameOuterIteration: b follows a inside one iteration of a loop that contains both (the only way back from b to a
+// is round that outer loop).
+func sameOuterIteration(a, b *an.Loop) bool {
+	return !a.Blocks[b.Header] && !b.Blocks[a.Header]
 }
